@@ -952,7 +952,51 @@ impl<'a> Run<'a> {
         fail!("C06", sig(self.s, k, &clause), "after every delivered wake was polled, a pending {k} task completed on a forced poll: it was able to complete but its waker had not been invoked ({} other task(s) pending)", self.tasks.len());
       }
     }
-    self.settle()
+    self.settle()?;
+    self.observable_stall()
+  }
+
+  /// Second, model-based form of the stall clause for flavours whose pending futures do not
+  /// re-try on a forced poll (bounded mpmc send futures only refresh their waker): with every
+  /// delivered wake polled, a send task may only still be pending if the channel is full, and
+  /// a receive task only if it is empty — as reported by the channel's own `len()`, whose
+  /// meaning E1 pins down.  Not applied where space / items can legitimately be invisible
+  /// (bounded-mpsc credit window, rendezvous pairing is checked separately).
+  fn observable_stall(&mut self) -> R {
+    let f = self.s.flavour;
+    if !matches!(f, Flavour::SpscBounded | Flavour::MpmcBounded | Flavour::MpmcUnbounded | Flavour::MpscUnbounded) {
+      if f.rendezvous() {
+        let pending_tx = self.tasks.iter().any(|t| t.is_tx && !self.tx.iter().any(|h| h.hid == t.hid && h.closed));
+        let pending_rx = self.tasks.iter().any(|t| !t.is_tx && !self.rx.iter().any(|h| h.hid == t.hid && h.closed));
+        if pending_tx && pending_rx && self.rx_alive() && self.tx_alive() {
+          fail!("C06", sig(self.s, "executor", "stalled_pair_not_matched"), "a send task and a receive task are both pending on a rendezvous channel with no undelivered wake: they should have been paired");
+        }
+      }
+      return Ok(());
+    }
+    let len = self.rx.iter().filter_map(|h| h.h.len()).next().or_else(|| self.tx.iter().filter_map(|h| h.h.len()).next());
+    let Some(len) = len else { return Ok(()) };
+    for t in self.tasks.iter() {
+      let own_closed = if t.is_tx { self.tx.iter().any(|h| h.hid == t.hid && h.closed) } else { self.rx.iter().any(|h| h.hid == t.hid && h.closed) };
+      if own_closed {
+        continue;
+      }
+      if t.is_tx {
+        if let Some(cap) = self.cap {
+          if len < cap && self.rx_alive() {
+            let batch_wants = match &t.kind {
+              Kind::SendBatch(ids) | Kind::SendBatchMut(ids) => ids.len(),
+              _ => 1,
+            };
+            let _ = batch_wants;
+            fail!("C06", sig(self.s, "send_task", "stalled_with_space"), "a send task is pending with no undelivered wake although only {len} of {cap} slots are used and a receiver is alive");
+          }
+        }
+      } else if len > 0 {
+        fail!("C06", sig(self.s, "recv_task", "stalled_with_items"), "a receive task is pending with no undelivered wake although {len} value(s) are buffered");
+      }
+    }
+    Ok(())
   }
 
   fn step(&mut self, op: &Op) -> R {
